@@ -8,6 +8,7 @@ specification: `Spec/Match.lean` (section 4.7).
 -/
 import Mqtt.Proofs.BrokerFanoutHistory
 import Mqtt.Proofs.BrokerRefineCor
+import Mqtt.Proofs.BrokerRefineCorX
 
 set_option linter.unusedSimpArgs false
 
@@ -366,5 +367,24 @@ theorem C01_refines_reference (es : List Ev) (hok : okRun {} es = true) (c : Nat
   · intro g
     exact ⟨(Mqtt.Proofs.BrokerRefine.publish_copies hR ⟨p, false⟩ hg hn hq2 hmok g).1,
       Mqtt.Proofs.BrokerRefine.publish_nobody_else hR ⟨p, false⟩ hg hn hq2 hmok g⟩
+
+open Mqtt.Proofs.BrokerRefine (EvX okRunX runX specRunX pubOk mkCopy) in
+open Mqtt.Spec.Broker (Accepts modelGroup pubOf wild) in
+/-- **C01_refines_reference after a history with failed handshakes** (Proofs/BrokerRefineFail.lean:
+`BrokerX_refines_spec`).  The same statement for a PUBLISH with QoS 0 or 1 on a live connection, after a
+history that may also contain first packets whose answer could not be written (`EvX.failFirst`). -/
+theorem C01_refines_reference_with_failed_handshakes (es : List EvX) (hok : okRunX {} es = true) (c : Nat) (p : Pub)
+    (hl : (runX {} es).1.alive c = true) (hp : pubOk p = true) (hq : p.qos ≤ 1) :
+    Accepts (Mqtt.Spec.Broker.step (specRunX {} es).1 (.packet c (.publish p))).2
+      (step (runX {} es).1 (.packet c (.publish p))).2 ∧
+    (step (runX {} es).1 (.packet c (.publish p))).2 =
+      (if p.qos = 1 then [.send c (.puback p.pktid)] else []) ++ (onPublish (runX {} es).1 ⟨p, false⟩).2.2.1 ∧
+    ∀ g,
+      (((modelGroup g (onPublish (runX {} es).1 ⟨p, false⟩).2.2.1).filterMap pubOf).map wild).Perm
+        (((specRunX {} es).1.held.filter (fun x => topicMatches x.filter p.topic && x.owner == g)).map
+          (fun x => mkCopy p.topic p.payload (min p.qos x.qos))) ∧
+      ((∀ x ∈ (specRunX {} es).1.held, x.owner = g → topicMatches x.filter p.topic = false) →
+        modelGroup g (onPublish (runX {} es).1 ⟨p, false⟩).2.2.1 = []) :=
+  Mqtt.Proofs.BrokerRefine.publish01_refinesX es hok c p hl hp hq
 
 end Mqtt.Properties.C01
